@@ -76,8 +76,11 @@ impl Exec {
 
 /// (number of data-area writes to fail, fail every write, fail every fsync) by program family.
 pub fn fault_spec(name: &str) -> (u32, bool, bool) {
-    if name.starts_with("fault-data3:") {
-        (3, false, false)
+    // "ack:fault-data3:..." = an acknowledgement program run while data writes fail
+    let name = name.strip_prefix("ack:").unwrap_or(name);
+    if let Some(rest) = name.strip_prefix("fault-data") {
+        let n: u32 = rest.split(':').next().and_then(|d| d.parse().ok()).unwrap_or(3);
+        (n, false, false)
     } else if name.starts_with("fault-writes:") {
         (0, true, false)
     } else if name.starts_with("fault-fsyncs:") {
@@ -144,8 +147,6 @@ pub fn execute(p: &Program, prefix: &[usize], horizon: usize, on_decision: Optio
         }
         drop(sut);
     };
-    // faults requested by the program family (applied to the controlled phase only)
-    let fault = fault_spec(&p.name);
     let n_bg = if p.cfg.persistent { p.cfg.workers + 1 } else { 0 };
     let t0 = std::time::Instant::now();
     while sess.adopted.load(Ordering::SeqCst) < n_bg {
@@ -155,6 +156,8 @@ pub fn execute(p: &Program, prefix: &[usize], horizon: usize, on_decision: Optio
         }
         std::thread::sleep(Duration::from_micros(50));
     }
+    // faults requested by the program family (applied to the controlled phase only)
+    let fault = fault_spec(&p.name);
     // sequential setup, checked against the strict model
     let mut model = Model::new(p.cfg, T0);
     for (si, op) in p.setup.iter().enumerate() {
@@ -167,6 +170,9 @@ pub fn execute(p: &Program, prefix: &[usize], horizon: usize, on_decision: Optio
             ex.machinery = Some(format!("setup step {} disagrees with the model: {e}", p.tables.describe(op)));
             return ex;
         }
+    }
+    if fault != (0, false, false) {
+        model.faulty_device = true;
     }
     ex.init = Some(model.clone());
     {
